@@ -10,7 +10,9 @@ requires liquidity > 0 and an unfrozen token and happens after the authority che
 locked transfer performs unfreeze -> transfer -> freeze -> owner update; a position token is
 minted with amount 1 and the mint authority removed on every success path; the bundle
 bitmap flips one bit with open/closed rejection, and deletion requires an all-zero bitmap;
-opening handlers resolve one-sided bounds and open with the resolved range.
+opening handlers resolve one-sided bounds and open with the resolved range; the range
+validator itself (both implementations) rejects each unusable bound, lower >= upper and,
+on full-range-only pools, each bound that is not the full-range bound.
 Not decided: the snapping arithmetic of one-sided bounds; sequences of operations."""
 from analysis import cfg, atoms as A, preach, writes, program, pino, accounts as ACC
 from analysis.ir import callee_path, AnchorMissing
@@ -416,4 +418,82 @@ def R6_one_sided(run):
     run.check("R6", "both-sentinels-rejected", both, "resolve_one_sided_position_ticks no longer fails with InvalidTickIndex", loc=fn.loc(), detail="both sentinels / crossed bounds => InvalidTickIndex")
 
 
-RULES = [R1_range_fields, R2_close, R3_lock, R4_one_token, R5_bundle, R6_one_sided]
+def R7_range_validator(run):
+    run.title("R7", "validate_tick_range_for_whirlpool (both): each bound not usable for the pool's spacing, or lower >= upper => InvalidTickIndex; on spacing >= 32768 a lower bound other "
+                    "than the full-range lower OR an upper bound other than the full-range upper => FullRangeOnlyPool (each comparison fails on its own); "
+                    "check_is_usable_tick = in [MIN, MAX] and a multiple of the spacing")
+    facts = run.facts
+    for path in ("state::position::validate_tick_range_for_whirlpool", "pinocchio::state::whirlpool::position::validate_tick_range_for_whirlpool"):
+        fn = facts.need_fn(path)
+        run.touch(fn)
+        short = "pinocchio" if path.startswith("pinocchio") else "anchor"
+        got = set()
+        for at in A.atoms(fn):
+            codes_t, codes_f = at.true_codes if at.true_fail else set(), at.false_codes if at.false_fail else set()
+            c = at.cond()
+            t = strip(at.term)
+            if is_call(t, "check_is_usable_tick") and at.false_fail and "InvalidTickIndex" in codes_f:
+                a0 = strip(t[2][0])
+                got.add("usable(%s)" % (a0[1] if a0[0] == "param" else "?"))
+            elif c:
+                for (o, x, y, fails) in ((c[0], c[1], c[2], at.true_fail), (A.NEG[c[0]], c[1], c[2], at.false_fail)):
+                    if not fails:
+                        continue
+                    codes = codes_t if fails is at.true_fail and o == c[0] else codes_f
+                    for (oo, xx, yy) in ((o, x, y), (A.SWAP[o], y, x)):
+                        if oo == "Ge" and is_param(xx, "tick_lower_index") and is_param(yy, "tick_upper_index") and "InvalidTickIndex" in (at.true_codes | at.false_codes):
+                            got.add("lower>=upper")
+                        if oo == "Ne" and strip(xx)[0] == "param" and strip(yy)[0] == "field" and is_call(strip(yy)[1], "full_range_indexes") and "FullRangeOnlyPool" in (at.true_codes | at.false_codes):
+                            got.add("%s!=full.%s" % (strip(xx)[1], strip(yy)[2]))
+        want = {"usable(tick_lower_index)", "usable(tick_upper_index)", "lower>=upper", "tick_lower_index!=full.0", "tick_upper_index!=full.1"}
+        run.check("R7", "rejections@" + short, got == want, "%s rejects %s; expected %s" % (path, sorted(got), sorted(want)), loc=fn.loc(), detail="5 independent rejections")
+        gate = [at for at in A.atoms(fn) if at.cond() and at.cond()[0] in ("Ge", "Lt") and arg_name(at.cond()[1]) == "tick_spacing" and const_val(at.cond()[2]) == 32768]
+        ok = len(gate) == 1
+        if ok:
+            at = gate[0]
+            side = at.true_targets[0] if at.cond()[0] == "Ge" else at.false_targets[0]
+            other = at.false_targets[0] if at.cond()[0] == "Ge" else at.true_targets[0]
+            fr = [b for b, t in fn.calls() if (callee_path(t) or "").endswith("full_range_indexes")]
+            ok = bool(fr) and all(b in cfg.reach(fn, side, cut_blocks=[at.block]) and b not in cfg.reach(fn, other, cut_blocks=[at.block]) for b in fr)
+        run.check("R7", "full-range-gate@" + short, ok, "%s does not apply the full-range requirement exactly when tick_spacing >= 32768" % path, loc=fn.loc(), detail="spacing >= FULL_RANGE_ONLY_TICK_SPACING_THRESHOLD")
+    u = facts.need_fn("state::tick::Tick::check_is_usable_tick")
+    run.touch(u)
+    oob = facts.need_fn("state::tick::Tick::check_is_out_of_bounds")
+    run.touch(oob)
+    pvo = prov_of(oob)
+    conds = set()
+    for bi, bb in enumerate(oob.blocks):
+        if bb["t"]["k"] == "ret":
+            for r in leaves(pvo.local(0, bi, len(bb["s"]))):
+                for s_ in [x for x in subterms(r) if x[0] == "bin" and x[1] in ("Lt", "Gt", "Le", "Ge")] :
+                    for (o, x, y) in ((s_[1], s_[2], s_[3]), (A.SWAP[s_[1]], s_[3], s_[2])):
+                        if is_param(x, "tick_index") and const_val(y) in (-443636, 443636):
+                            conds.add((o, const_val(y)))
+    from analysis.match import range_bounds
+    for bi, bb in enumerate(oob.blocks):
+        if bb["t"]["k"] == "ret":
+            for r in leaves(pvo.local(0, bi, len(bb["s"]))):
+                r = strip(r)
+                if r[0] == "un" and r[1] == "Not" and is_call(r[2], "contains"):
+                    c_ = strip(r[2])
+                    rb = range_bounds(c_[2][0])
+                    item = strip(c_[2][1])
+                    item = strip(item[1]) if item[0] == "ref" else item
+                    if rb and is_param(item, "tick_index") and const_val(rb[0]) == -443636 and const_val(rb[1]) == 443636 and rb[2]:
+                        conds |= {("Lt", -443636), ("Gt", 443636)}
+    for at in A.atoms(oob):
+        c = at.cond()
+        if c:
+            for (o, x, y) in ((c[0], c[1], c[2]), (A.SWAP[c[0]], c[2], c[1])):
+                if is_param(x, "tick_index") and const_val(y) in (-443636, 443636):
+                    conds.add((o, const_val(y)))
+    gate = [at for at in A.atoms(u) if is_call(at.term, "check_is_out_of_bounds") and is_param(strip(at.term)[2][0], "tick_index") and at.true_ret and all(const_val(x) == 0 for x in at.true_ret)]
+    pvu = prov_of(u)
+    rets = [strip(x) for bi, bb in enumerate(u.blocks) if bb["t"]["k"] == "ret" for x in leaves(pvu.local(0, bi, len(bb["s"])))]
+    mod = [r for r in rets if r[0] == "bin" and r[1] in ("Eq",) and const_val(r[3]) == 0 and strip(r[2])[0] == "bin" and strip(r[2])[1] == "Rem" and is_param(strip(r[2])[2], "tick_index")]
+    ok = {("Lt", -443636), ("Gt", 443636)} <= conds and len(gate) == 1 and len(mod) == 1
+    run.check("R7", "usable-tick", ok, "check_is_usable_tick is not (MIN_TICK_INDEX <= tick <= MAX_TICK_INDEX) && tick %% spacing == 0: bounds %s, returns %s" % (sorted(conds), [sh(r, 40) for r in rets]),
+              loc=u.loc(), detail="in [-443636, 443636] and tick % spacing == 0")
+
+
+RULES = [R1_range_fields, R2_close, R3_lock, R4_one_token, R5_bundle, R6_one_sided, R7_range_validator]
